@@ -270,6 +270,21 @@ def disable_default_fill_value(dataset_or_array: xarray.Dataset | xarray.DataArr
             variable.encoding["_FillValue"] = None
 
 
+def bounds_variable_names(dataset: xarray.Dataset) -> set[Hashable]:
+    """
+    The names of all the variables that some other variable
+    names in its ``bounds`` attribute.
+    A bounds variable can repeat the ``units``, ``standard_name``, or ``axis``
+    of its coordinate, and xarray copies the time units to the bounds
+    of a time coordinate, but it is never a coordinate variable itself.
+    """
+    return {
+        variable.attrs['bounds']
+        for variable in dataset.variables.values()
+        if 'bounds' in variable.attrs
+    }
+
+
 def dataset_like(sample_dataset: xarray.Dataset, new_dataset: xarray.Dataset) -> xarray.Dataset:
     """
     Take an example dataset, and another dataset with identical variable names
